@@ -44,6 +44,7 @@ SCHEMA = {
 }
 HTTP_LOCATION = "http://127.0.0.1:1/openapi.json"
 GENERIC_CLASSES = {"notbool": "boolean-option"}     # one finding, whatever boolean option carries the value
+_SIG_CACHE: dict = {}
 
 
 # ---------------------------------------------------------------------------------------------------
@@ -584,9 +585,17 @@ def signatures(case: dict, obs: dict, cat: dict, family: dict | None, engine: bo
         if got is None:
             got = next((v for p, ff, v in obs["hyp"] if (ff, p) == (f, site)), None)
             want = hyp.get((site, f))
-        # other options the disagreement needs: drop every foreign option that can be dropped without losing it
+        # other options the disagreement needs: none if the element reduced to the field's own options still shows it; otherwise drop
+        # every foreign option that can be dropped without losing it
         cur, order = case, list(obs["order"])
-        changed = True
+        own_only = family.get(key_of(case["door"], [[o, n] for o, n in case["cmd"] if o in own or o == "url"])) if family else None
+        if own_only is not None and own_only["verdict"] == "ACCEPT" and len(own_only["cmd"]) < len(case["cmd"]):
+            ck = (key_of(own_only["door"], own_only["cmd"]), engine)
+            if ck not in _SIG_CACHE:
+                _SIG_CACHE[ck] = disagreements(own_only, watch(own_only, [o for o in order if o in own or o == "url"]), cat)
+            if (f, site) in _SIG_CACHE[ck]:
+                cur = own_only
+        changed = cur is case
         while changed:
             changed = False
             for o in list(order):
@@ -814,14 +823,16 @@ def selftest(ctx: Ctx) -> bool:
     items, cat, _ = enumerate_family("CliConfig_quick.cfg")
     _CAT = cat
     family = {key_of(c["door"], c["cmd"]): c for c in items}
-    want_cmd = [["url", "cli"], ["max_examples", "seven"], ["no_shrink", "on"]]
-    case = family[key_of("file", want_cmd)]
-    good = observe(case, ["no_shrink", "url", "max_examples"])
-    eng = observe_engine(case, ["url", "max_examples", "no_shrink"])
+    case = family[key_of("file", [["url", "cli"], ["max_examples", "seven"], ["no_shrink", "on"]])]
+    case_a = family[key_of("file", [["url", "cli"], ["no_shrink", "on"], ["database", "memory"]])]
+    case_b = family[key_of("file", [["url", "cli"], ["max_examples", "seven"], ["database", "none"]])]
     rejected = family[key_of("file", [["url", "cli"], ["rate_limit", "badunit"]])]
+    good = observe(case, ["no_shrink", "url", "max_examples"])
+    eng_a = observe_engine(case_a, ["url", "database", "no_shrink"])
+    eng_b = observe_engine(case_b, ["max_examples", "url", "database"])
     rej = observe(rejected, ["url", "rate_limit"])
-    if good["outcome"] != "ACCEPT" or eng["outcome"] != "ACCEPT" or not eng["hyp"] or rej["outcome"] != "REJECT":
-        print("selftest: unexpected outcomes", good["outcome"], good["note"], eng["outcome"], eng["note"], rej["outcome"], rej["note"])
+    if [good["outcome"], eng_a["outcome"], eng_b["outcome"], rej["outcome"]] != ["ACCEPT", "ACCEPT", "ACCEPT", "REJECT"] or not eng_a["hyp"]:
+        print("selftest: unexpected outcomes", [(o["outcome"], o["note"]) for o in (good, eng_a, eng_b, rej)])
         return False
 
     def corrupt(obs: dict, f: str, site: str, v: str) -> dict:
@@ -836,24 +847,24 @@ def selftest(ctx: Ctx) -> bool:
         assert hit, (f, site)
         return o
 
-    batch = [good, eng, rej,
-             corrupt(good, "max_examples", "engine", "100"),          # 4: the given value did not arrive
-             corrupt(good, "header", "session", "X-Key=v1"),          # 5: a default was changed by an unrelated option
-             corrupt(good, "workers", "engine", "3"),                 # 6: undecided default: must NOT be reported
-             dict(good, outcome="REJECT"),                            # 7
-             dict(rej, outcome="ACCEPT"),                             # 8
-             corrupt(eng, "hshrink", "fuzzing", "true"),              # 9: --no-shrink lost in one phase
-             corrupt(eng, "hmax", "stateful", "100"),                 # 10
-             corrupt(eng, "hdeadline", "coverage", "200ms"),          # 11
-             corrupt(eng, "phases", "ran", "e+c+f")]                  # 12: a configured phase did not run
-    dis, _ = judge(ctx, batch, "selftest.json")
-    want = {(4, "max_examples", "engine"), (5, "header", "session"), (7, "verdict", "cli"), (8, "verdict", "cli"),
-            (9, "hshrink", "fuzzing"), (10, "hmax", "stateful"), (11, "hdeadline", "coverage"), (12, "phases", "ran")}
+    batch = [(case, good), (case_a, eng_a), (case_b, eng_b), (rejected, rej),
+             (case, corrupt(good, "max_examples", "engine", "100")),          # 5: the given value did not arrive
+             (case, corrupt(good, "header", "session", "X-Key=v1")),          # 6: a default was changed by an unrelated option
+             (case, corrupt(good, "workers", "engine", "3")),                 # 7: undecided default: must NOT be reported
+             (case, dict(good, outcome="REJECT")),                            # 8
+             (rejected, dict(rej, outcome="ACCEPT")),                         # 9
+             (case_a, corrupt(eng_a, "hshrink", "fuzzing", "true")),          # 10: --no-shrink lost in one phase
+             (case_b, corrupt(eng_b, "hmax", "stateful", "100")),             # 11
+             (case_b, corrupt(eng_b, "hdeadline", "coverage", "200ms")),      # 12
+             (case_b, corrupt(eng_b, "phases", "ran", "e+c+f")),              # 13: a configured phase did not run
+             (case_a, corrupt(eng_a, "hdb", "stateful", "default"))]          # 14: the configured database lost in one phase
+    dis, _ = judge(ctx, [o for _, o in batch], "selftest.json")
+    want = {(5, "max_examples", "engine"), (6, "header", "session"), (8, "verdict", "cli"), (9, "verdict", "cli"),
+            (10, "hshrink", "fuzzing"), (11, "hmax", "stateful"), (12, "hdeadline", "coverage"), (13, "phases", "ran"), (14, "hdb", "stateful")}
     if dis != want:
         print("selftest: judge printed", sorted(dis), "expected", sorted(want))
         return False
-    mine = {(n, f, s) for n, (c, o) in enumerate(zip([case, case, rejected] + [case] * 4 + [rejected] + [case] * 4, batch), 1)
-            for f, s in disagreements(c, o, cat)}
+    mine = {(n, f, s) for n, (c, o) in enumerate(batch, 1) for f, s in disagreements(c, o, cat)}
     if mine != want:
         print("selftest: driver comparison gives", sorted(mine), "expected", sorted(want))
         return False
